@@ -331,6 +331,7 @@ tpt_msg_broadcast_send__int(tp_p tp, tpt_p src,
 
 	if (NULL != msg_data &&
 	    NULL != src &&
+	    tpt_get_tp(src) == tp && /* Thread from other pool is not skipped. */
 	    0 != (TP_BMSG_F_SELF_SKIP & flags)) {
 		msg_data->active_thr_count --;
 	}
@@ -382,26 +383,43 @@ tpt_msg_bsend_ex(tp_p tp, tpt_p src, uint32_t flags,
 		error = EINVAL;
 		goto err_out;
 	}
+	if (0 != (TP_BMSG_F_SYNC_USLEEP & flags)) { /* Wait with sleep is wait. */
+		flags |= TP_BMSG_F_SYNC;
+	}
 	if (NULL == src) {
 		src = tpt_get_current();
 	}
+	if (NULL != src &&
+	    tpt_get_tp(src) != tp) { /* Thread from other pool: outside caller. */
+		src = NULL;
+	}
 	/* 1 thread specific. */
 	if (1 == threads_max &&
-	    NULL != src) { /* Only if thread send broadcast to self. */
+	    NULL != src &&
+	    src == tpt_get_current()) { /* Only if thread send broadcast to self. */
 		if (0 != (TP_BMSG_F_SELF_SKIP & flags))
 			goto err_out; /* Nothink to do. */
 		if (0 == (TP_BMSG_F_SYNC & flags)) {
 			error = tpt_msg_send(tp_thread_get(tp, 0), src, flags, msg_cb, udata);
 			if (0 == error) {
 				msg_data_s.send_msg_cnt ++;
+			} else {
+				msg_data_s.error_cnt ++;
 			}
 		} else { /* Cant async call from self. */
 			msg_cb(src, udata);
+			msg_data_s.send_msg_cnt ++;
 		}
 		goto err_out; /* Sended / error on send. */
 	}
 	/* Multithread. */
 	if (0 != (TP_BMSG_F_SYNC & flags)) {
+		/* Caller cant wait for message in own queue: call directly. */
+		if (NULL != src &&
+		    src == tpt_get_current() &&
+		    0 == (TP_BMSG_F_SELF_SKIP & flags)) {
+			flags |= TP_MSG_F_SELF_DIRECT;
+		}
 		/* Setup proxy cb. */
 		msg_data = &msg_data_s;
 		msg_data->msg_cb = msg_cb;
@@ -491,10 +509,13 @@ tpt_msg_cbsend(tp_p tp, tpt_p src, uint32_t flags,
 	}
 	if (NULL == src) /* Cant do final callback. */
 		return (EINVAL);
+	if (0 == tpt_is_running(src)) /* Cant do final callback on it. */
+		return (EHOSTDOWN);
 	threads_max = tp_thread_count_max_get(tp);
 	/* 1 thread specific. */
 	if (1 == threads_max &&
-	    NULL != src) { /* Only if thread send broadcast to self. */
+	    tpt_get_tp(src) == tp &&
+	    src == tpt_get_current()) { /* Only if thread send broadcast to self. */
 		if (0 != (TP_BMSG_F_SELF_SKIP & flags)) {
 			done_cb(src, 0, 0, udata); /* Nothink to do. */
 		} else { /* Cant async call from self. */
@@ -514,18 +535,30 @@ tpt_msg_cbsend(tp_p tp, tpt_p src, uint32_t flags,
 	msg_data->done_cb = done_cb;
 
 	if (0 != (TP_CBMSG_F_ONE_BY_ONE & flags)) {
-		if (TP_MSG_F_SELF_DIRECT == ((TP_BMSG_F_SELF_SKIP | TP_MSG_F_SELF_DIRECT) & flags)) {
+		if (TP_MSG_F_SELF_DIRECT == ((TP_BMSG_F_SELF_SKIP | TP_MSG_F_SELF_DIRECT) & flags) &&
+		    tpt_get_tp(src) == tp) { /* Thread from other pool is not a target. */
 			msg_data->send_msg_cnt ++;
 			msg_cb(src, udata);
 		}
 		if (0 == tpt_msg_one_by_one_send_next__int(tp, src, msg_data))
 			return (0); /* OK, sheduled. */
 		/* Nothing sheduled: nobody else will free msg_data. */
-		if (TP_MSG_F_SELF_DIRECT == ((TP_BMSG_F_SELF_SKIP | TP_MSG_F_SELF_DIRECT) & flags)) {
+		if (TP_MSG_F_SELF_DIRECT == ((TP_BMSG_F_SELF_SKIP | TP_MSG_F_SELF_DIRECT) & flags) &&
+		    tpt_get_tp(src) == tp) { /* Thread from other pool is not a target. */
 			done_cb(src, msg_data->send_msg_cnt,
 			    msg_data->error_cnt, udata);
 			free(msg_data);
 			return (0);
+		}
+		if (0 == ((TP_BMSG_F_SELF_SKIP | TP_MSG_F_SELF_DIRECT) & flags) &&
+		    tpt_get_tp(src) == tp) { /* Try shedule caller thread. */
+			msg_data->cur_thr_idx = threads_max;
+			msg_data->send_msg_cnt ++;
+			if (0 == tpt_msg_send(src, src, flags,
+			    tpt_msg_one_by_one_proxy_cb, msg_data))
+				return (0); /* OK, sheduled. */
+			msg_data->send_msg_cnt --;
+			msg_data->error_cnt ++;
 		}
 		free(msg_data);
 		return (ESPIPE);
